@@ -73,6 +73,7 @@ class ConScenario(Scenario):
         st.expect_payload = b"ok"
         st.old = None
         st.allowed_acks = set()
+        st.allowed_rsts = set()
         if p["source"] in ("request", "block2"):
             st.node = w.add_context("cli", *CLIENT)
             st.peer = w.add_peer(Silent("srv", *SERVER))
@@ -214,6 +215,10 @@ class ConScenario(Scenario):
             return src, (rc.ACK, 69, mid, st.token, [(23, rc.block(1, False, 0))] if self.params["source"] == "block2" else [], b"ok")
         if kind in ("oldresp-non", "oldresp-con"):
             # the separate response to the *older* request: it answers (and confirms) that one only
+            if 0x7001 in st.allowed_acks:
+                # a second copy arrives after the older request has been answered: its token is retired, so a
+                # confirmable copy is rejected like any unknown response (C02) - a Reset with its message ID
+                st.allowed_rsts.add(0x7001)
             st.allowed_acks.add(0x7001)
             return src, (rc.NON if kind.endswith("non") else rc.CON, 69, 0x7001, st.old_token, [], b"old")
         if kind == "ackresp-badtoken":
@@ -322,7 +327,8 @@ class ConScenario(Scenario):
                                            core.site_of(e) if e else "loop", {}, key=type(e).__name__ if e else msg[:40]))
         # replies the endpoint itself sent besides the copies: nothing is expected for empty ACK/RST
         others = [d for d in w.sent if d.src == st.node.addr and d not in cp and d.t > st.t0 and d.dst == st.peer_addr
-                  and not (d.data[0] & 0x30 == 0x20 and ((d.data[2] << 8) | d.data[3]) in st.allowed_acks)]
+                  and not (d.data[0] & 0x30 == 0x20 and ((d.data[2] << 8) | d.data[3]) in st.allowed_acks)
+                  and not (d.data[0] & 0x30 == 0x30 and ((d.data[2] << 8) | d.data[3]) in st.allowed_rsts)]
         if others:
             st.violations.append(Violation("unexpected-transmission", "none", [repr(d) for d in others], "messagemanager.py", {}, key="tx"))
 
